@@ -76,6 +76,34 @@ def docs():
     return [d1, d2, d3, d4]
 
 
+def pretty_xml(doc):
+    """the document with whitespace-only text between element siblings (never next to real text): with xsl:strip-space elements="*"
+    the processor must see exactly the original tree"""
+    def r(n):
+        if n.kind == R.ELEM:
+            o = '<' + n.qname + ''.join(' %s="%s"' % (a.qname, R.esc_attr(a.value)) for a in n.attrs)
+            if not n.children:
+                return o + '/>'
+            o += '>'
+            prev = None
+            for c in n.children:
+                if c.kind != R.TEXT and (prev is None or prev.kind != R.TEXT):
+                    o += '\n  '
+                o += r(c)
+                prev = c
+            if prev is not None and prev.kind != R.TEXT:
+                o += '\n'
+            return o + '</' + n.qname + '>'
+        if n.kind == R.TEXT:
+            return R.esc_text(n.value)
+        if n.kind == R.COMMENT:
+            return '<!--' + n.value + '-->'
+        if n.kind == R.PI:
+            return '<?' + n.local + ' ' + n.value + '?>'
+        return ''
+    return ''.join(r(c) for c in doc.root.children)
+
+
 def matches(m_ast, doc):
     out = []
     seen = set()
@@ -130,11 +158,12 @@ def lookup_xml(i, kname, argtext, docsel, tops):
     return inner
 
 
-def stylesheet(decl_xml, lookups, imports='', tops='', rtf=''):
+def stylesheet(decl_xml, lookups, imports='', tops='', rtf='', strip=False):
+    # xsl:import elements come first; strip-space makes the processor see the pretty-printed variant of a document as the original
     return ('<xsl:stylesheet version="1.0" xmlns:xsl="%s" xmlns:xalan="http://xml.apache.org/xalan" xmlns:p="u1" xmlns:q1="u1" '
-            'exclude-result-prefixes="xalan p q1">%s%s<xsl:variable name="t">%s</xsl:variable>%s'
+            'exclude-result-prefixes="xalan p q1">%s%s%s<xsl:variable name="t">%s</xsl:variable>%s'
             '<xsl:template match="/"><out>%s</out></xsl:template>%s</xsl:stylesheet>'
-            % (XSL, imports, decl_xml, rtf, tops, ''.join(lookups), PATH_TEMPLATES))
+            % (XSL, imports, '<xsl:strip-space elements="*"/>' if strip else '', decl_xml, rtf, tops, ''.join(lookups), PATH_TEMPLATES))
 
 
 SECOND = ((3, 0), (0, 1), (2, 1), (8, 10), (11, 3), (15, 12))
@@ -225,10 +254,12 @@ def shard_main(shard, nshards, tier):
         imp_xml = ''.join('<xsl:import href="%s"/>' % n for n in imports)
         tops = []
         bodies = [lookup_xml(i, k, a, ds, tops) for i, (k, a, ds, _, _) in enumerate(lookups)]
-        xsl = stylesheet(decl_xml, bodies, imp_xml, ''.join(tops), '<xsl:copy-of select="document(\'other.xml\')/node()"/>')
-        args = ['r:other.xml=' + other.to_xml()] + ['r:%s=%s' % kv for kv in imports.items()]
+        # every third case is run on the pretty-printed documents with xsl:strip-space elements="*": same tree, same answers
+        strip = idx % 3 == 1
+        xsl = stylesheet(decl_xml, bodies, imp_xml, ''.join(tops), '<xsl:copy-of select="document(\'other.xml\')/node()"/>', strip)
+        args = ['r:other.xml=' + (pretty_xml(other) if strip else other.to_xml())] + ['r:%s=%s' % kv for kv in imports.items()]
         try:
-            r = w.request('tr', xsl, main.to_xml(), *args)
+            r = w.request('tr', xsl, pretty_xml(main) if strip else main.to_xml(), *args)
         except vlib.WorkerDied as wd:
             viols.append(('%s|fatal|%s' % (fam, desc), {'decl': decl_xml, 'stderr': wd.stderr_tail[-1500:]}))
             continue
